@@ -453,18 +453,19 @@ class Findings:
     def __init__(self) -> None:
         self.by: Dict[Tuple[str, str], dict] = {}
 
-    def add(self, clause: str, part: str, cfg: dict, ev: dict) -> None:
+    def add(self, clause: str, part: str, cfg: dict, ev: dict, count: int = 1) -> None:
+        """count > 0 only for the first example of an aggregated (clause, count, positions) entry."""
         for c in clause.split("+"):
             if part == "a":
                 cls = f"follow={cfg['follow']} show={cfg['show']}" + (f" ae={cfg['ae']}" if cfg["ae"] else "")
-                weight = (len(ev["segs"]), sum(len(s) for s in ev["segs"]))
+                weight: Tuple[Any, ...] = (len(ev["segs"]), sum(len(s) for s in ev["segs"]))
             else:
                 cls = ""
                 weight = (c.startswith("Dev_") and ev["status"] != 206,
                           sum(1 for k in ("ifr", "im", "inm", "ius", "ims") if ev[k] != "absent"),
                           ev["method"] != "GET", abs(ev["size"] - 3), ev["ra"] + ev["rb"])
             slot = self.by.setdefault((c, cls), {"n": 0, "weight": None, "cfg": cfg, "ev": ev, "part": part})
-            slot["n"] += 1
+            slot["n"] += count
             if slot["weight"] is None or weight < slot["weight"]:
                 slot.update({"weight": weight, "cfg": cfg, "ev": ev})
 
@@ -491,11 +492,10 @@ def judge(ctx: Ctx, traces: List[dict], findings: Findings) -> None:
     for t, v in zip(traces, verdicts):
         if v.pos != v.total:
             raise MachineryError(f"trace {t['src']} consumed {v.pos}/{v.total} events")
-        nfail, fails = v.info[0], v.info[1]
-        for pos, clause in fails:
-            findings.add(clause, t["cfg"]["part"], t["cfg"], t["events"][pos - 1])
-        if nfail > len(fails):
-            ctx.notes.append(f"{t['src']}: {nfail} failing events, {len(fails)} kept")
+        _nfail, fails = v.info[0], v.info[1]
+        for clause, n, positions in fails:          # aggregated per clause by the trace spec
+            for k, pos in enumerate(positions):
+                findings.add(clause, t["cfg"]["part"], t["cfg"], t["events"][pos - 1], n if k == 0 else 0)
 
 
 def chunked(evs: List[dict], n: int) -> Iterable[List[dict]]:
